@@ -59,7 +59,11 @@ def run2(ctx):
     q = ctx.quick
     rnd = random.Random(ctx.seed)
     behs = []
-    for cfg, part, take in CFGS:
+    cfgs = list(CFGS)
+    if not q or "f" in ctx._parts:
+        # thorough only (minutes): out-of-order data, OOO compaction, partial delete of the OOO block, CleanTombstones, restart
+        cfgs.append(("MC_c01_f.cfg", "f", 100000))
+    for cfg, part, take in cfgs:
         if not ctx.want(part):
             continue
         mc = ctx.tlc("db", "Db", cfg, workers=8, timeout=1800)
